@@ -64,3 +64,18 @@ Proof.
   split; [|vm_compute; reflexivity].
   repeat constructor; cbn; try congruence; intros _; split; reflexivity.
 Qed.
+
+(* on networks of the instance model (RefineNet.v): whatever an honest member reports as decided is a non-bottom value for which a
+   strong quorum exists whose honest members really cast DECIDE for it (Spec.decides on the global vote history) -- the reported
+   justification is not just well-formed, it is backed by votes *)
+From F3 Require InstanceNoPanic Refine RefineNet.
+From F3 Require Spec.
+Theorem C03_network_decision_backed : forall (c : Instance.config) (honest : nat -> bool) (input : nat -> Instance.chain),
+  InstanceNoPanic.committee_wf c -> Instance.c_total c <= 65535 -> (forall k, honest k = true -> input k <> []) ->
+  3 * Spec.byz_power (Refine.power c) (Refine.committee c) honest < Spec.total (Refine.power c) (Refine.committee c) ->
+  forall acts k j, RefineNet.all_ok c honest (RefineNet.net0 input) acts -> RefineNet.member c honest k ->
+    Instance.i_term (RefineNet.n_inst (RefineNet.nrun c (RefineNet.net0 input) acts) k) = Some j ->
+    Instance.j_value j <> [] /\
+    Spec.decides (Refine.power c) (Refine.committee c) honest (RefineNet.n_votes (RefineNet.nrun c (RefineNet.net0 input) acts)) (Instance.j_value j).
+Proof. exact RefineNet.decided_value. Qed.
+Print Assumptions C03_network_decision_backed.
